@@ -20,6 +20,7 @@ import (
 	"encoding/json"
 	"fmt"
 	"math"
+	"reflect"
 	"strconv"
 	"time"
 )
@@ -311,6 +312,11 @@ func convertNumericToString(input any) (string, bool) {
 
 // convertComplexToString 将复杂类型转换为字符串
 func convertComplexToString(input any) (string, error) {
+	// A typed nil pointer (e.g. (*time.Time)(nil) for an optional timestamp) is NULL like
+	// an untyped nil: calling a value-receiver String() through it would panic.
+	if rv := reflect.ValueOf(input); rv.Kind() == reflect.Ptr && rv.IsNil() {
+		return "", nil
+	}
 	switch v := input.(type) {
 	case []byte:
 		return string(v), nil
